@@ -814,8 +814,8 @@ pub struct StreamJudgement {
     pub ok: CaseOk,
 }
 
-pub fn judge_stream(case: &StreamCase) -> StreamJudgement {
-    let mut ok = CaseOk::new();
+/// The client script a stream case stands for
+pub fn stream_cli_case(case: &StreamCase) -> CliCase {
     let mut ops = Vec::new();
     for (i, (style, unit, timeout, gap, req)) in case.requests.iter().enumerate() {
         if *gap > 0 {
@@ -830,7 +830,7 @@ pub fn judge_stream(case: &StreamCase) -> StreamJudgement {
             req: req.clone(),
         });
     }
-    let cli = CliCase {
+    let mut cli = CliCase {
         cfg: CliConfig {
             framing: case.framing,
             decode: case.decode,
@@ -856,11 +856,16 @@ pub fn judge_stream(case: &StreamCase) -> StreamJudgement {
         pre_enable: true,
     };
     // idle frames are sent before the first request is submitted
-    let mut cli = cli;
     if !case.idle_frames.is_empty() {
         let maxd = case.idle_frames.iter().map(|x| x.0).max().unwrap_or(0);
         cli.ops.insert(0, COp::Advance(maxd + 1));
     }
+    cli
+}
+
+pub fn judge_stream(case: &StreamCase) -> StreamJudgement {
+    let mut ok = CaseOk::new();
+    let cli = stream_cli_case(case);
     let run = run_client(&cli);
     let fail = |m: String, ok: CaseOk| StreamJudgement {
         violation: Some(m),
